@@ -60,7 +60,7 @@ class Main(Part):
 
     def budget(self, tier):
         return {"quick": dict(examples=400, shards=6, seconds=80),
-                "thorough": dict(examples=4000, shards=16, seconds=900)}[tier]
+                "thorough": dict(examples=4000, shards=16, seconds=600)}[tier]
 
     def strategy(self, tier):
         return c19_case()
